@@ -83,6 +83,8 @@ def run(ctx):
     ctx.rule("R18.d", "every store mutation of a mutator lies inside exactly one `with self._trigger(...)` scope; delegated mutator calls pass trigger=False", floor=8)
     ctx.rule("R18.e", "readers use the current stores (get_range reads _objects and names; membership is tested against self.objects; the objects setter assigns names and _objects together)", floor=4)
     ctx.rule("R18.g", "an iterable argument that feeds both stores is materialised first (extend; slice assignment): an iterator would be exhausted by the first store", floor=2)
+    ctx.rule("R18.h", "names entries are removed only by the removers (pop, remove, clear): __setitem__ / update overwrite a key in place, so a re-assigned key keeps its position "
+                      "(names order = list order)", floor=2)
     ctx.rule("R18.f", "outside ListProxy and the objects setter, _objects grows only in Selector._ensure_value_is_in_objects, which tests membership against the current objects for every single value", floor=1)
     ctx.not_decided += ["consistency after arbitrary mutation sequences (follows from per-mutator pairing but is not executed)",
                         "list mutators that ListProxy does not override (sort, reverse, __delitem__, +=) -- reported as informational"]
@@ -244,6 +246,22 @@ def run(ctx):
 
     _rule_f(ctx)
     _rule_g(ctx)
+    for m in ("__setitem__", "update", "append", "insert", "extend"):
+        f = ctx.repo.method(LP, m)
+        al = ctx.facts.local_aliases(f)
+
+        def is_names(e):
+            if isinstance(e, ast.Name) and e.id in al:
+                e = al[e.id]
+            return names_store(e)
+        rem = [c for c in ast.walk(f.node) if isinstance(c, ast.Call) and isinstance(c.func, ast.Attribute) and c.func.attr in ("pop", "popitem", "clear") and is_names(c.func.value)] + \
+              [d for d in ast.walk(f.node) if isinstance(d, ast.Delete) and any(isinstance(t, ast.Subscript) and is_names(t.value) for t in d.targets)]
+        if rem:
+            ctx.fail("R18.h", f, rem[0], "ListProxy.%s removes an entry from names (`%s`) and re-inserts it: a re-assigned existing key moves to the end of the name mapping, "
+                                         "so names order no longer matches the list view and get_range()" % (m, norm(rem[0])[:60]), key="%s::names-entry-moved" % f.qualname,
+                     input="Selector(objects={'a':1,'b':2,'c':3}).objects['a'] = 9 -> list(objects) == [9,2,3] but keys() == ['b','c','a']")
+        else:
+            ctx.ok("R18.h", f, f.node, "ListProxy.%s never removes from names" % m)
     overridden = set(cls.methods)
     for m in ("sort", "reverse", "__delitem__", "__iadd__", "__imul__"):
         if m not in overridden:
